@@ -323,7 +323,11 @@ def _run_ddl(st: dict, cur: Any, env: core.Env) -> None:
     name, rep = st["name"], _ident_reported(st["name"])
     kind = st["kind"]
     if kind == "table":
+        # IF NOT EXISTS creates the table when it is not there and says "already exists" when it is
         steps = [(f"CREATE TABLE {name} (x INT)", f"Table {rep} successfully created."),
+                 (f"CREATE TABLE IF NOT EXISTS {name} (x INT, y INT)", f"{rep} already exists, statement succeeded."),
+                 (f"DROP TABLE {name}", f"{rep} successfully dropped."),
+                 (f"CREATE TABLE IF NOT EXISTS {name} (x INT)", f"Table {rep} successfully created."),
                  (f"DROP TABLE {name}", f"{rep} successfully dropped.")]
     elif kind == "table_as":
         steps = [(f"CREATE OR REPLACE TABLE {name} AS SELECT A, B FROM SRC", f"Table {rep} successfully created."),
